@@ -873,6 +873,11 @@ func flavourMutations(fl string) []mutation {
 	// both
 	add("instance+1", func(m *g.Msg) { m.Inst++ })
 	add("instance+1-resigned", func(m *g.Msg) { m.Inst++ })
+	add("identity-repeated-resigned", func(m *g.Msg) {
+		if len(m.Items) > 1 {
+			m.Items[1] = m.Items[0]
+		}
+	})
 	add("eon=2", func(m *g.Msg) { m.Eon = 2 })
 	add("eon=2^63", func(m *g.Msg) { m.Eon = 1 << 63 })
 	add("kidx=3", func(m *g.Msg) { m.Kidx = 3 })
